@@ -124,6 +124,11 @@ type concRecord struct {
 	Frame   []string `json:"frame,omitempty"`
 }
 
+type storeFactsT struct {
+	fs     []string
+	errKey map[string]StoreKey
+}
+
 type concReport struct {
 	Calls   int          `json:"calls"`
 	Records []concRecord `json:"records"`
@@ -359,6 +364,7 @@ func runC03(a *Args) error {
 		userMeta  map[string]string
 		pluginCfg map[string]string
 		shared    bool
+		facts     *storeFactsT // set when the store content is fixed for the whole session (concurrency family)
 	}
 	sentinel := unrelLeaf.C // sits in the spare capacity behind every slice the scripted store hands out
 	fillMock := func(m *MockStore, stores []storeDesc) {
@@ -426,30 +432,9 @@ func runC03(a *Args) error {
 		}
 		return ss
 	}
-	observe := func(my int64, c *c03Case, ss *session, emit bool, opt *obsOpt) {
-		e := envs[c.Chain]
-		c.ChainID = e.ids
-		scheme := schemes[0]
-		if c.SA {
-			scheme = schemes[1]
-		}
-		if c.Repo == "" {
-			c.Repo = TestScope
-		}
-		ekey := c.Format + "|" + string(scheme) + "|" + strconv.Itoa(c.TS)
-		inner, rec, selIdx, v := ss.inner, ss.rec, ss.selIdx, ss.v
-		vctx := context.Background()
-		if opt == nil {
-			rec.calls = nil
-		} else {
-			vctx = opt.ctx
-		}
-		finalStores := func(i int) []string {
-			if i == selIdx && c.Mutate != nil {
-				return c.Mutate
-			}
-			return c.Stmts[i].Stores
-		}
+	// what the store answers, asked from the store itself (fs of the model, and the error
+	// text that identifies a failing store)
+	storeFacts := func(c *c03Case, inner truststore.X509TrustStore, finalStores func(int) []string) ([]string, map[string]StoreKey) {
 		// what the store answers, asked from the store itself (fs of the model, and the
 		// error text that identifies a failing store)
 		typeSet := map[string]bool{"ca": true, "signingAuthority": true, "tsa": true}
@@ -503,6 +488,39 @@ func runC03(a *Args) error {
 				}
 				fsTerms = append(fsTerms, CPair(CPair(CStr(t), CStr(n)), CApp("Certs", CList(ids))))
 			}
+		}
+		return fsTerms, errKey
+	}
+	observe := func(my int64, c *c03Case, ss *session, emit bool, opt *obsOpt) {
+		e := envs[c.Chain]
+		c.ChainID = e.ids
+		scheme := schemes[0]
+		if c.SA {
+			scheme = schemes[1]
+		}
+		if c.Repo == "" {
+			c.Repo = TestScope
+		}
+		ekey := c.Format + "|" + string(scheme) + "|" + strconv.Itoa(c.TS)
+		inner, rec, selIdx, v := ss.inner, ss.rec, ss.selIdx, ss.v
+		vctx := context.Background()
+		if opt == nil {
+			rec.calls = nil
+		} else {
+			vctx = opt.ctx
+		}
+		finalStores := func(i int) []string {
+			if i == selIdx && c.Mutate != nil {
+				return c.Mutate
+			}
+			return c.Stmts[i].Stores
+		}
+		var fsTerms []string
+		var errKey map[string]StoreKey
+		if ss.facts != nil {
+			fsTerms, errKey = ss.facts.fs, ss.facts.errKey
+		} else {
+			fsTerms, errKey = storeFacts(c, inner, finalStores)
 		}
 		// run
 		// FRAME CHECK: everything the caller owns and hands to the library by reference is
@@ -726,9 +744,9 @@ func runC03(a *Args) error {
 	// ---------- concurrency: ONE verifier shared by goroutines (runs in a child process) ----------
 	runConc := func() *concReport {
 		const K = 8
-		N := 250
+		N := 600
 		if a.Tier == "thorough" {
-			N = 1500
+			N = 3000
 		}
 		n3e, n2e, n4e := envs["n3"], envs["n2"], envs["n4"]
 		noiseC := []int64{n3e.twins[0], idUnrelRoot}
@@ -782,6 +800,12 @@ func runC03(a *Args) error {
 		}
 		call := func(ss *session, c *c03Case) (in, obs string, nontriv bool, frame []string, cc *c03Case) {
 			x := *c
+			cc = &x
+			defer func() { // a panic of one call is an anomaly of that call, the other goroutines go on
+				if r := recover(); r != nil {
+					in, obs = "", "PANIC: "+Short(fmt.Sprint(r), 200)
+				}
+			}()
 			x.Labels = append([]string(nil), c.Labels...)
 			x.Calls = nil
 			calls := []StoreKey{}
@@ -794,6 +818,8 @@ func runC03(a *Args) error {
 			ss.shared = true
 			ss.userMeta = map[string]string{"c03.meta": "v"}
 			ss.pluginCfg = map[string]string{"cfg": "x", "other": "y"}
+			fs, ek := storeFacts(inputs[0][0], ss.inner, func(i int) []string { return inputs[0][0].Stmts[i].Stores })
+			ss.facts = &storeFactsT{fs: fs, errKey: ek}
 			return ss
 		}
 		// reference: every input alone, on a verifier of its own
@@ -821,7 +847,9 @@ func runC03(a *Args) error {
 					v := j % 2
 					in, obs, nt, fr, cc := call(shared, inputs[g][v])
 					bad := ""
-					if obs != ref[g][v] {
+					if strings.HasPrefix(obs, "PANIC: ") {
+						bad = fmt.Sprintf("concurrent use of one verifier: call %d of goroutine %d panicked (%s), the same input alone gives %s", j, g, obs, ref[g][v])
+					} else if obs != ref[g][v] {
 						bad = fmt.Sprintf("concurrent use of one verifier: call %d of goroutine %d observed %s, the same input alone gives %s", j, g, obs, ref[g][v])
 					} else if len(fr) > 0 {
 						bad = "concurrent use of one verifier: library mutated caller-owned " + strings.Join(fr, ", ")
@@ -1577,9 +1605,11 @@ func runC03(a *Args) error {
 			if !w.Want(my) {
 				continue
 			}
-			w.Add(my, CApp("mk_case", CN(my), r.In, r.Obs), r.Case, r.In+r.Obs, r.Nontriv)
-			w.Count("family", "concurrent")
-			w.Count("obs_auth", strings.SplitN(r.Case.Auth, ":", 2)[0])
+			if r.In != "" {
+				w.Add(my, CApp("mk_case", CN(my), r.In, r.Obs), r.Case, r.In+r.Obs, r.Nontriv)
+				w.Count("family", "concurrent")
+				w.Count("obs_auth", strings.SplitN(r.Case.Auth, ":", 2)[0])
+			}
 			if r.Anomaly != "" {
 				w.ImplViolation(my, r.Anomaly, r.Case, "concurrency:wrong-result")
 				w.Count("concurrent_anomaly", "true")
